@@ -63,6 +63,23 @@ class Tx(ast.NodeTransformer):
                 args=[f.value, node.args[0]], keywords=[]), node)
         return node
 
+    def visit_JoinedStr(self, node):
+        """f'...{x}...' -> __sx_fstr__('...', (x, conv, spec), ...) so that symbolic strings survive"""
+        self.generic_visit(node)
+        args = []
+        for v in node.values:
+            if isinstance(v, ast.Constant):
+                args.append(v)
+            elif isinstance(v, ast.FormattedValue):
+                spec = v.format_spec if v.format_spec is not None else ast.Constant(value='')
+                if isinstance(spec, ast.JoinedStr):
+                    spec = self.visit_JoinedStr(spec) if any(isinstance(x, ast.FormattedValue) for x in spec.values) \
+                        else ast.Constant(value=''.join(x.value for x in spec.values))
+                args.append(ast.Tuple(elts=[v.value, ast.Constant(value=v.conversion), spec], ctx=ast.Load()))
+            else:
+                return node
+        return ast.copy_location(ast.Call(func=ast.Name(id='__sx_fstr__', ctx=ast.Load()), args=args, keywords=[]), node)
+
     def _env_get(self, mod, node):
         return ast.copy_location(ast.Subscript(
             value=ast.Name(id='__sx_env__', ctx=ast.Load()),
